@@ -170,6 +170,8 @@ def interp_stacks():
         'instopt(stateful)': lambda cl: InstantiationOptimizer(StatefulInterpreter(G, cl())),
         'instopt(basic)': lambda cl: InstantiationOptimizer(BasicInterpreter(G)),
         'memo(instopt(serializing))': lambda cl: MemoizingInterpreter(InstantiationOptimizer(SerializingInterpreter(G, claims=cl(), **sink3())), set()),
+        # what ProofExp.serialize(optimize=True) builds: the memo set is whatever a counting pre-pass over the module suggests
+        'optimize(serializing)': lambda cl: MemoizingInterpreter(SerializingInterpreter(G, claims=cl(), **sink3()), set()),
     }
 
 
@@ -185,6 +187,10 @@ def run_under_all(mod, B, memo_sets=None):
         concs, out = [], 'ok'
         try:
             it = mk(cl)
+            if nm.startswith('optimize'):
+                analyzer = CountingInterpreter(ExecutionPhase.Gamma, cl())
+                mod.execute_full(analyzer)
+                it._patterns_for_memoization = analyzer.finalize()
             if nm.startswith('memo') and memo_sets is not None:
                 it._patterns_for_memoization = set(memo_sets)
             mod.execute_gamma_phase(it)
